@@ -87,3 +87,158 @@ func VerifH_MultiLineProgram() {
 	symx.MustFinish(tW, "after Stop all lane goroutines terminate and the exit signal is sent")
 	symx.Reach("end")
 }
+
+func (c *verifCtx) cancel() { c.err = context.Canceled; close(c.done) }
+
+// C14/H2d (hashed multi-line, cancellation and Stop with a backlog): a gated call keeps one lane busy;
+// a second caller on the same lane is cancelled while queued (or calls with a context that has already
+// ended), a third on the other hash completes meanwhile; Stop with the backlog still queued: the calls
+// accepted before Stop still complete, every caller gets its own result or its own context's error,
+// the lanes terminate.
+func VerifH_MultiLineCancel() {
+	slots := symx.Param("slots", 2)
+	m := NewMultiLine(pipe.WithSlotSize(slots), pipe.WithQSize(4))
+	m.Run()
+	lanes := make([]*verifLane, slots)
+	for i := range lanes {
+		lanes[i] = &verifLane{}
+	}
+	var ran [4]int
+	gate := make(chan struct{})
+	call := func(ctx context.Context, sIndex int, req interface{}) (interface{}, error) {
+		id := req.(int)
+		symx.Assert(sIndex >= 0 && sIndex < slots, "the lane index passed to the callee lies in [0, lanes)")
+		ln := lanes[sIndex]
+		symx.YieldOn(ln)
+		n := symx.GhostAdd(&ln.running, 1)
+		symx.Assert(n == 1, "calls on one lane never overlap in time")
+		ran[id]++
+		ln.order = append(ln.order, id)
+		if id == 0 {
+			<-gate
+		}
+		symx.YieldOn(ln)
+		symx.GhostAdd(&ln.running, -1)
+		return 100 + id, nil
+	}
+	h0, h1 := symx.Param("hash0", -3), symx.Param("hash1", 4)
+	var r [4]interface{}
+	var e [4]error
+	ctxB := verifNewCtx()
+	deadB := symx.Bool("contextEndedBeforeTheCall")
+	if deadB {
+		ctxB.cancel()
+	}
+	tA := symx.Go("callerA", func() { r[0], e[0] = m.AsyncCall(verifNewCtx(), NewCallCtx(h0, call, 0)) })
+	symx.WaitQuiescent() // A runs on h0's lane, parked on the gate
+	tB := symx.Go("callerB", func() { r[1], e[1] = m.AsyncCall(ctxB, NewCallCtx(h0, call, 1)) })
+	tC := symx.Go("callerC", func() { r[2], e[2] = m.AsyncCall(verifNewCtx(), NewCallCtx(h1, call, 2)) })
+	symx.WaitQuiescent()
+	sameLane := m.IndexOf(h0) == m.IndexOf(h1)
+	if !sameLane {
+		symx.MustFinish(tC, "a busy lane does not delay calls on another lane")
+	}
+	cancelB := deadB || symx.Bool("cancelB")
+	if deadB {
+		symx.MustFinish(tB, "a caller whose context has ended returns without waiting for the lane")
+	} else if cancelB {
+		ctxB.cancel()
+		symx.WaitQuiescent()
+		symx.MustFinish(tB, "a caller whose context ended returns")
+	} else {
+		symx.Assert(symx.Blocked(tB), "B waits behind A on the same lane")
+	}
+	if cancelB {
+		symx.Assert(e[1] == context.Canceled && r[1] == nil && ran[1] == 0, "B gets its own context's error; its call has not run while A keeps the lane")
+	}
+	stopEarly := symx.Bool("stopBeforeGate")
+	if stopEarly {
+		m.Stop()
+		tD := symx.Go("callerD", func() { r[3], e[3] = m.AsyncCall(verifNewCtx(), NewCallCtx(h0, call, 3)) })
+		symx.WaitQuiescent()
+		symx.MustFinish(tD, "a call after Stop returns at once")
+		symx.Assert(e[3] == pipe.ErrQueueClosed && r[3] == nil && ran[3] == 0, "after Stop no new call is accepted")
+	}
+	close(gate)
+	symx.WaitQuiescent()
+	symx.MustFinish(tA, "the gated caller gets its result")
+	symx.Assert(e[0] == nil && r[0].(int) == 100 && ran[0] == 1, "caller A receives the result of its own call, run once")
+	symx.MustFinish(tC, "caller C completes (accepted before Stop)")
+	symx.Assert(e[2] == nil && r[2].(int) == 102 && ran[2] == 1, "caller C receives the result of its own call, run once")
+	if !cancelB {
+		symx.MustFinish(tB, "a call accepted before Stop still completes")
+		symx.Assert(e[1] == nil && r[1].(int) == 101 && ran[1] == 1, "caller B receives the result of its own call, not another's")
+		o := lanes[m.IndexOf(h0)].order
+		ia, ib := -1, -1
+		for i, id := range o {
+			if id == 0 {
+				ia = i
+			}
+			if id == 1 {
+				ib = i
+			}
+		}
+		symx.Assert(ia >= 0 && ib > ia, "calls on one lane start in the order they were accepted")
+	}
+	symx.Assert(ran[1] <= 1, "at most once")
+	if !stopEarly {
+		m.Stop()
+	}
+	tW := symx.Go("waiter", func() { _ = m.WaitStop(verifNewCtx()) })
+	symx.WaitQuiescent()
+	symx.MustFinish(tW, "after Stop all lane goroutines terminate and the exit signal is sent")
+	symx.Reach("end")
+}
+
+// C14/H2e (hashed multi-line, placements of Stop): Stop issued before Run (the calls accepted before it
+// still complete once the lanes run) and Stop issued by a call running on a lane (an actor handling its
+// own shutdown request) with another call already queued behind it: Stop returns, the accepted calls
+// complete with their own results, later calls are refused, every lane terminates and WaitStop reports it.
+func VerifH_MultiLineStopPlacement() {
+	slots := symx.Param("slots", 2)
+	m := NewMultiLine(pipe.WithSlotSize(slots), pipe.WithQSize(4))
+	var ran [3]int
+	gate := make(chan struct{})
+	fromInside := symx.Bool("stopFromInsideACall")
+	call := func(ctx context.Context, sIndex int, req interface{}) (interface{}, error) {
+		id := req.(int)
+		ran[id]++
+		if id == 0 && fromInside {
+			<-gate
+			m.Stop()
+		}
+		return 100 + id, nil
+	}
+	h0 := symx.Param("hash0", -3)
+	var r [3]interface{}
+	var e [3]error
+	if fromInside {
+		m.Run()
+	}
+	tA := symx.Go("callerA", func() { r[0], e[0] = m.AsyncCall(verifNewCtx(), NewCallCtx(h0, call, 0)) })
+	symx.WaitQuiescent()
+	tB := symx.Go("callerB", func() { r[1], e[1] = m.AsyncCall(verifNewCtx(), NewCallCtx(h0, call, 1)) })
+	symx.WaitQuiescent()
+	symx.Assert(symx.Blocked(tA) && symx.Blocked(tB), "both calls are accepted and wait (lane busy or not yet running)")
+	if fromInside {
+		close(gate)
+	} else {
+		tS := symx.Go("stopper", func() { m.Stop() })
+		symx.WaitQuiescent()
+		symx.MustFinish(tS, "Stop returns without the lanes having run")
+		m.Run()
+	}
+	symx.WaitQuiescent()
+	symx.MustFinish(tA, "a call accepted before Stop completes")
+	symx.MustFinish(tB, "a call accepted before Stop completes")
+	symx.Assert(e[0] == nil && r[0].(int) == 100 && ran[0] == 1, "caller A receives the result of its own call, run once")
+	symx.Assert(e[1] == nil && r[1].(int) == 101 && ran[1] == 1, "caller B receives the result of its own call, run once")
+	tC := symx.Go("late", func() { r[2], e[2] = m.AsyncCall(verifNewCtx(), NewCallCtx(h0, call, 2)) })
+	symx.WaitQuiescent()
+	symx.MustFinish(tC, "a call after Stop returns at once")
+	symx.Assert(e[2] == pipe.ErrQueueClosed && ran[2] == 0, "after Stop no new call is accepted")
+	tW := symx.Go("waiter", func() { _ = m.WaitStop(verifNewCtx()) })
+	symx.WaitQuiescent()
+	symx.MustFinish(tW, "after Stop all lane goroutines terminate and the exit signal is sent")
+	symx.Reach("end")
+}
